@@ -65,6 +65,7 @@ class Report:
         self.samples = []
         self.extra = {}
         self.child_access = set()
+        self.vacuity = {'feasible_paths': 0, 'mustfail_guards_refuted': 0}
 
     # ---- intake
     def add_fragment_results(self, results, clause_filter=None):
@@ -75,6 +76,8 @@ class Report:
                 continue
             self.units[unit] = {'vcs': len(r['verdicts']), 'paths': r.get('paths', 0), 'wall': r.get('wall', 0)}
             self.child_access.update(tuple(a) for a in r.get('child_access', []))
+            self.vacuity['feasible_paths'] += r.get('paths', 0)
+            self.vacuity['mustfail_guards_refuted'] += sum((r.get('stats') or {}).get('mustfail', {}).values())
             if r.get('error'):
                 self.errors.append((unit, r['error'][0], r['error'][1]))
             for v in r['verdicts']:
@@ -191,6 +194,7 @@ class Report:
                 'backend': backend,
                 'slowest': [dict(o.brief()) for o in slow],
                 'bounded_standins': self.bounded,
+                'vacuity': dict(self.vacuity, rule='every unit needs >= 1 feasible path (path condition SAT) and zero obligations is a fault; per fragment unit two deliberately wrong clauses (negated status, end off by one) must NOT be provable'),
                 'failed': [o.ident for o in viol][:200],
                 'undecided': [o.ident for o in unknown][:50] + [f'{e[0]}: {e[1]}: {str(e[2])[:200]}' for e in und][:50],
                 'samples': samples,
